@@ -292,6 +292,14 @@ func parseTrace(path, dir, markDir string) ([]TOp, error) {
 				ops = append(ops, TOp{Kind: "create", A: n})
 			case fl["O_WRONLY"] && len(fl) == 1:
 				ops = append(ops, TOp{Kind: "openw", A: n})
+			// other ways of opening a file for writing: not in the model's op list, but their
+			// effect on the directory is materialised when the crash directories are built
+			case fl["O_CREAT"] && fl["O_EXCL"] && !fl["O_APPEND"]:
+				ops = append(ops, TOp{Kind: "createx", A: n, Text: flags}) // succeeded: the file did not exist, now it is empty
+			case fl["O_TRUNC"] && !fl["O_APPEND"]:
+				ops = append(ops, TOp{Kind: "create", A: n, Text: flags})
+			case fl["O_CREAT"] && !fl["O_APPEND"]:
+				ops = append(ops, TOp{Kind: "touch", A: n, Text: flags}) // created empty if absent, else untouched
 			default:
 				ops = append(ops, TOp{Kind: "unknown", Text: "openat " + n + " " + flags})
 			}
@@ -328,7 +336,8 @@ func parseTrace(path, dir, markDir string) ([]TOp, error) {
 		}
 		if m := reFtrunc.FindStringSubmatch(l); m != nil {
 			if n, ok := fds[m[1]]; ok {
-				ops = append(ops, TOp{Kind: "unknown", Text: "ftruncate " + n + " " + m[2]})
+				ln, _ := strconv.Atoi(m[2])
+				ops = append(ops, TOp{Kind: "trunc", A: n, N: ln})
 			}
 			continue
 		}
@@ -430,6 +439,18 @@ func applyOp(dir string, o TOp, data []byte, cut int) error {
 			return err
 		}
 		return f.Close()
+	case "createx", "touch":
+		f, err := os.OpenFile(p, os.O_WRONLY|os.O_CREATE, 0600)
+		if err != nil {
+			return err
+		}
+		return f.Close()
+	case "trunc":
+		err := os.Truncate(p, int64(o.N))
+		if os.IsNotExist(err) {
+			return nil
+		}
+		return err
 	case "openw", "fsync", "unknown":
 		return nil
 	case "write":
@@ -934,8 +955,12 @@ func dirCoq(d Dir) string {
 
 func (s *Scen) opCoq(o TOp, newName string) string {
 	switch o.Kind {
-	case "create":
+	case "create", "createx": // createx succeeded, so the file was absent: same effect as create
 		return "(OCreate " + Str(o.A) + ")"
+	case "trunc":
+		if o.N == 0 {
+			return "(OCreate " + Str(o.A) + ")"
+		}
 	case "openw":
 		return "(OOpenW " + Str(o.A) + ")"
 	case "write":
@@ -948,7 +973,7 @@ func (s *Scen) opCoq(o TOp, newName string) string {
 		return "(OUnlink " + Str(o.A) + ")"
 	}
 	// a system call the model has no counterpart for: never equal to a model op
-	return "(OUnlink " + Str("?unknown: "+o.Text) + ")"
+	return "(OUnlink " + Str("?unknown: "+o.Kind+" "+o.A+" "+o.Text) + ")"
 }
 
 func opsText(ops []TOp) string {
